@@ -567,7 +567,11 @@ func c08BlockedLane(t *testing.T, proto string) {
 			if o.sendRst {
 				rst = "1"
 			}
-			impl := fmt.Sprintf("ret=%s;read=%s;closes=%d;upl=%s;rst=%s", ret, read, o.closes, upl, rst)
+			stop := "0"
+			if o.recvStop {
+				stop = "1"
+			}
+			impl := fmt.Sprintf("ret=%s;read=%s;closes=%d;upl=%s;rst=%s;stop=%s", ret, read, o.closes, upl, rst, stop)
 			mk := want
 			s.Case(fmt.Sprintf("c08h3life 1 %s %s %s", trace, mk, impl), impl, len(failed) == 0, "", true, human)
 		}
